@@ -134,7 +134,33 @@ func runC07(p *core.Prog, r *core.Report) {
 // (a phi), which cannot be counted.
 func pathDepth(v ssa.Value) (n int, ok bool) {
 	ok = true
+	env := map[*ssa.Parameter]ssa.Value{}
 	var walk func(x ssa.Value, d int)
+	// a path helper of the package with one way of building its result is counted through
+	inlineDepth := func(c *ssa.Call, idx int, d int) bool {
+		g := pathHelper(c, idx)
+		if g == nil || d > 20 {
+			return false
+		}
+		var ops []ssa.Value
+		for _, ret := range core.Returns(g) {
+			op := core.ReturnOperand(ret, idx)
+			if cs, isC := core.ConstString(op); isC && cs == "" {
+				continue
+			}
+			ops = append(ops, op)
+		}
+		if len(ops) != 1 {
+			return false
+		}
+		for i, pr := range g.Params {
+			if i < len(c.Call.Args) {
+				env[pr] = c.Call.Args[i]
+			}
+		}
+		walk(ops[0], d+1)
+		return true
+	}
 	walk = func(x ssa.Value, d int) {
 		if x == nil || d > 30 {
 			ok = false
@@ -151,12 +177,26 @@ func pathDepth(v ssa.Value) (n int, ok bool) {
 				return
 			}
 			n++
+		case *ssa.Parameter:
+			if a, has := env[y]; has {
+				walk(a, d+1)
+				return
+			}
+			n++
+		case *ssa.Extract:
+			if c, isCall := y.Tuple.(*ssa.Call); isCall && inlineDepth(c, y.Index, d) {
+				return
+			}
+			n++
 		case *ssa.Call:
 			cal := core.Callee(y)
 			if cal != nil && (core.IsFunc(cal, "path", "Join") || core.IsFunc(cal, "path/filepath", "Join")) {
 				for _, e := range variadicElems(y.Call.Args[0]) {
 					walk(e, d+1)
 				}
+				return
+			}
+			if y.Call.Signature().Results().Len() == 1 && inlineDepth(y, 0, d) {
 				return
 			}
 			n++
@@ -348,59 +388,125 @@ func underIface(v ssa.Value) ssa.Value {
 // PathLeaves exposes pathLeaves.
 func PathLeaves(v ssa.Value) []ssa.Value { return pathLeaves(v) }
 
+// pathHelper: call c hands back (as result idx) a string that an unexported-or-exported function of
+// the same package builds: `blobFile(r, dig)`. The path expression is then read inside that function,
+// with its parameters standing for the arguments of the call.
+func pathHelper(c *ssa.Call, idx int) *ssa.Function {
+	g := c.Call.StaticCallee()
+	if g == nil || c.Call.IsInvoke() || len(g.Blocks) == 0 || len(g.Blocks) > 40 || c.Parent() == nil || core.FuncPkg(g) != core.FuncPkg(c.Parent()) || g == c.Parent() {
+		return nil
+	}
+	res := g.Signature.Results()
+	if idx >= res.Len() || !isStringType(res.At(idx).Type()) {
+		return nil
+	}
+	return g
+}
+
+type pathFrame struct {
+	params map[*ssa.Parameter]ssa.Value
+	parent *pathFrame
+}
+
 func pathLeaves(v ssa.Value) []ssa.Value {
 	var out []ssa.Value
-	seen := map[ssa.Value]bool{}
-	var walk func(x ssa.Value, depth int)
-	walk = func(x ssa.Value, depth int) {
-		if x == nil || seen[x] || depth > 40 {
-			if x != nil && !seen[x] {
+	type key struct {
+		v ssa.Value
+		f *pathFrame
+	}
+	seen := map[key]bool{}
+	var walk func(x ssa.Value, depth int, fr *pathFrame)
+	inline := func(c *ssa.Call, idx int, depth int, fr *pathFrame) bool {
+		g := pathHelper(c, idx)
+		if g == nil || depth > 30 {
+			return false
+		}
+		nf := &pathFrame{params: map[*ssa.Parameter]ssa.Value{}, parent: fr}
+		for i, pr := range g.Params {
+			if i < len(c.Call.Args) {
+				nf.params[pr] = c.Call.Args[i]
+			}
+		}
+		n := 0
+		for _, ret := range core.Returns(g) {
+			op := core.ReturnOperand(ret, idx)
+			if op == nil {
+				continue
+			}
+			if cs, isC := core.ConstString(op); isC && cs == "" {
+				continue // the error returns of a (string, error) helper
+			}
+			n++
+			walk(op, depth+1, nf)
+		}
+		return n > 0
+	}
+	walk = func(x ssa.Value, depth int, fr *pathFrame) {
+		k := key{x, fr}
+		if x == nil || seen[k] || depth > 40 {
+			if x != nil && !seen[k] {
 				out = append(out, x)
 			}
 			return
 		}
-		seen[x] = true
+		seen[k] = true
 		switch y := x.(type) {
+		case *ssa.Parameter:
+			if fr != nil {
+				if a, ok := fr.params[y]; ok {
+					walk(a, depth+1, fr.parent)
+					return
+				}
+			}
+			out = append(out, x)
+		case *ssa.Extract:
+			if c, ok := y.Tuple.(*ssa.Call); ok && inline(c, y.Index, depth, fr) {
+				return
+			}
+			out = append(out, x)
 		case *ssa.Call:
 			cal := core.Callee(y)
 			switch {
 			case cal != nil && (core.IsFunc(cal, "path", "Join") || core.IsFunc(cal, "path/filepath", "Join")):
 				// variadic: the single argument is a slice built from an array alloc
 				for _, e := range variadicElems(y.Call.Args[0]) {
-					walk(e, depth+1)
+					walk(e, depth+1, fr)
 				}
 				return
 			case cal != nil && core.IsFunc(cal, "fmt", "Sprintf"):
 				for _, e := range variadicElems(y.Call.Args[len(y.Call.Args)-1]) {
-					walk(underIface(e), depth+1)
+					walk(underIface(e), depth+1, fr)
 				}
-				walk(y.Call.Args[0], depth+1)
+				walk(y.Call.Args[0], depth+1, fr)
+				return
+			}
+			if y.Call.Signature().Results().Len() == 1 && inline(y, 0, depth, fr) {
 				return
 			}
 			out = append(out, x)
 		case *ssa.BinOp:
 			if isStringType(y.Type()) {
-				walk(y.X, depth+1)
-				walk(y.Y, depth+1)
+				walk(y.X, depth+1, fr)
+				walk(y.Y, depth+1, fr)
 				return
 			}
 			out = append(out, x)
 		case *ssa.Phi:
 			for _, e := range y.Edges {
-				walk(e, depth+1)
+				walk(e, depth+1, fr)
 			}
 		case *ssa.MakeInterface:
-			walk(y.X, depth+1)
+			walk(y.X, depth+1, fr)
 		case *ssa.ChangeType:
-			walk(y.X, depth+1)
+			walk(y.X, depth+1, fr)
 		case *ssa.Convert:
-			walk(y.X, depth+1)
+			walk(y.X, depth+1, fr)
 		case *ssa.UnOp:
 			if al, ok := y.X.(*ssa.Alloc); ok {
 				sts := core.StoresToCell(al)
 				if len(sts) > 0 {
 					for _, st := range sts {
-						walk(st.Val, depth+1)
+						walk(st.Val, depth+1, fr)
 					}
 					return
 				}
@@ -410,7 +516,7 @@ func pathLeaves(v ssa.Value) []ssa.Value {
 			out = append(out, x)
 		}
 	}
-	walk(v, 0)
+	walk(v, 0, nil)
 	return out
 }
 
@@ -586,7 +692,23 @@ func c07R2(p *core.Prog, r *core.Report) {
 				return
 			}
 			isTemp := func(v ssa.Value) bool {
-				return v != nil && fromCall(v, 0, func(f *types.Func) bool { return isOS(f, "CreateTemp") })
+				if v == nil {
+					return false
+				}
+				if fromCall(v, 0, func(f *types.Func) bool { return isOS(f, "CreateTemp") }) {
+					return true
+				}
+				// one of the writers of an io.MultiWriter
+				for _, oc := range originCalls(v) {
+					if cal := core.Callee(oc); cal != nil && core.IsFunc(cal, "io", "MultiWriter") && len(oc.Call.Args) == 1 {
+						for _, w := range variadicElems(oc.Call.Args[0]) {
+							if fromCall(underIface(w), 0, func(f *types.Func) bool { return isOS(f, "CreateTemp") }) {
+								return true
+							}
+						}
+					}
+				}
+				return false
 			}
 			switch {
 			case core.IsMethod(cal, "os", "File", cal.Name()) && (cal.Name() == "Write" || cal.Name() == "WriteString" || cal.Name() == "ReadFrom"):
